@@ -257,6 +257,8 @@ VlogDeclInit == << Cnew("N", "n"), Ccreate("NL", 1, "work", 0),
                Cchild(2, "g", 1), Csetitem("D", 2, "k", "u"), Csetitem("D", 1, "k", "v"),     \* module attributes
                Cconnect(6, OPin(2, 1)), Cconnect(7, OPin(2, 2)), Cconnect(8, OPin(2, 3)), Cconnect(9, OPin(2, 4)),
                Cconnect(10, OPin(2, 5)) >>
+VlogPlain == [order |-> "asis", ansi |-> FALSE, positional |-> FALSE, concat |-> FALSE, escaped |-> FALSE, comments |-> FALSE,
+              celldefine |-> FALSE, grouped |-> FALSE, escmod |-> FALSE, undeclared |-> FALSE, concatparts |-> FALSE]
 VlogCands(s, which) ==
     (IF "vlog_read" \in which
      THEN {[op |-> "vlog_read", n |-> 1, opts |-> o] : o \in (IF "vlog_all" \in which THEN RandomSubset(400, VlogOpts) ELSE RandomSubset(12, VlogOpts))}
@@ -264,7 +266,7 @@ VlogCands(s, which) ==
     \cup (IF "vlog_rt" \in which
           THEN {[op |-> "seq", calls |-> <<[op |-> "vlog_read", n |-> 1, opts |-> o],
                                           [op |-> "vlog_rt", n |-> 2, copts |-> [defparam |-> dp]]>>] :
-                   <<o, dp>> \in RandomSubset(4, VlogOpts) \X BOOLEAN}
+                   <<o, dp>> \in (RandomSubset(4, VlogOpts) \cup {VlogPlain, [VlogPlain EXCEPT !.positional = TRUE]}) \X BOOLEAN}
                \* "optionally transformed": the netlist the reader produced is uniquified and flattened, then written
                \cup {[op |-> "seq", calls |-> <<[op |-> "vlog_read", n |-> 1, opts |-> o], [op |-> "uniquify", n |-> 2],
                                                [op |-> "flatten", n |-> 2], [op |-> "vlog_rt", n |-> 2, copts |-> [defparam |-> FALSE]]>>] :
@@ -536,6 +538,12 @@ ScopeTable ==
     vlog_rt |-> VlogScope({"vlog_rt"}),
     vlog_assign |-> [VlogScope({"vlog_read", "vlog_rt"}) EXCEPT !.init = VlogAssignInit, !.ops = {"b:connect", "set_k:C"},
                        !.max = [N |-> 1, L |-> 2, D |-> 5, P |-> 10, C |-> 11, I |-> 5, Q |-> 14, W |-> 16]],
+    \* the top module has a net called n like mid (the modules' nets are separate name spaces)
+    vlog_shared |-> [VlogScope({"vlog_read", "vlog_rt"}) EXCEPT
+                       !.init = VlogInit \o << [op |-> "set_name", kind |-> "C", x |-> 9, val |-> "n"],
+                                               Cconnect(6, OPin(2, 1)), Cconnect(5, OPin(2, 2)),
+                                               Cconnect(12, OPin(3, 3)), Cconnect(13, OPin(3, 4)), Cconnect(10, OPin(3, 5)) >>,
+                       !.ops = {}, !.parents = {}],
     vlog_alias |-> [VlogScope({"vlog_read", "vlog_rt"}) EXCEPT !.init = VlogAliasInit, !.ops = {"b:connect"}, !.parents = {2},
                       !.max = [N |-> 1, L |-> 1, D |-> 3, P |-> 6, C |-> 8, I |-> 3, Q |-> 8, W |-> 10]],
     vlog_decl |-> [VlogScope({"vlog_read", "vlog_rt", "vlog_all"}) EXCEPT !.init = VlogDeclInit, !.ops = {}, !.parents = {}],
